@@ -236,7 +236,7 @@ def unit_ctor(model):
             for a, b in pairs:
                 parts += [a is not b, type(a) is type(b), game.same_value(a.mu, b.mu), game.same_value(a.sigma, b.sigma),
                           a.name is b.name or a.name == b.name, isinstance(b.id, str) and a.id == b.id,
-                          set(b.__dict__) == {"id", "name", "mu", "sigma"}]
+                          set(b.__dict__) == set(a.__dict__)]
             ctx.oblige(nm, game.conj(parts), meta=meta)
             if single:
                 ctx.oblige(nm + "/canary", c.id != src.id, kind="canary", meta={"replay": lambda md: mk(md, "canary"), "fn": meta["fn"]})
@@ -314,27 +314,32 @@ def _unit_rebuild(model, sizes, ranks, twins, generic):
                                meta={"replay": lambda md: mk(md, "canary"), "fn": f"{model}.{op}", "shape": shape})
             explore(ctx, run)
             recs += _merge_canaries(settle(ctx.all_obls, mode="U"))
-    # league step: game, rebuild every player from (mu, sigma), next game
+    # league step: game, rebuild every player from (mu, sigma), next game - also when the first game ran with
+    # limit_sigma in force (the clamp writes sigma back: a value derived from sigma and kept on the object would be stale)
     if ranks is None and not twins and not generic:
         for op in OPS:
-            ctx = Ctx("U")
+            for first_kw in ({}, {"limit_sigma": True}):
+                if first_kw and sizes not in ((1, 1), (2, 1)):
+                    continue
+                ctx = Ctx("U")
 
-            def run2(ctx, op=op):
-                m1, _ = game.mk_model(ctx, S)
-                m2, _ = game.mk_model(ctx, S)
-                r1 = call(m1.rate, game.mk_teams(ctx, S, sizes))
-                r2 = call(m2.rate, game.mk_teams(ctx, S, sizes))
-                if r1[0] != "return" or r2[0] != "return":
-                    ctx.oblige(f"C20/{model}/{op}/league-step@{shape}", False, meta={"fn": f"{model}.{op}", "shape": shape})
-                    return
-                rebuilt = [[m2.rating(p.mu, p.sigma) for p in t] for t in r2[1]]
-                ra = _do(m1, op, r1[1], None)
-                rb = _do(m2, op, rebuilt, None)
-                mk = lambda md: {"kind": "c20_chain", "model": model, "op": op, "game": game.enc_game(md, sizes), "params": game.enc_params(md)}
-                ctx.oblige(f"C20/{model}/{op}/league-step@{shape}", game.compare_outcomes(ra, rb),
-                           meta={"replay": mk, "fn": f"{model}.{op}", "shape": shape})
-            explore(ctx, run2)
-            recs += settle(ctx.all_obls, mode="U")
+                def run2(ctx, op=op, first_kw=first_kw):
+                    m1, _ = game.mk_model(ctx, S)
+                    m2, _ = game.mk_model(ctx, S)
+                    r1 = call(m1.rate, game.mk_teams(ctx, S, sizes), **first_kw)
+                    r2 = call(m2.rate, game.mk_teams(ctx, S, sizes), **first_kw)
+                    tag = "[first game with limit_sigma]" if first_kw else ""
+                    if r1[0] != "return" or r2[0] != "return":
+                        ctx.oblige(f"C20/{model}/{op}/league-step{tag}@{shape}", False, meta={"fn": f"{model}.{op}", "shape": shape})
+                        return
+                    rebuilt = [[m2.rating(p.mu, p.sigma) for p in t] for t in r2[1]]
+                    ra = _do(m1, op, r1[1], None)
+                    rb = _do(m2, op, rebuilt, None)
+                    mk = lambda md: {"kind": "c20_chain", "model": model, "op": op, "first": first_kw, "game": game.enc_game(md, sizes), "params": game.enc_params(md)}
+                    ctx.oblige(f"C20/{model}/{op}/league-step{tag}@{shape}", game.compare_outcomes(ra, rb),
+                               meta={"replay": mk, "fn": f"{model}.{op}", "shape": shape})
+                explore(ctx, run2)
+                recs += settle(ctx.all_obls, mode="U")
     return recs
 
 
